@@ -193,6 +193,54 @@ class StoreModel:
         return False, "no same-thread absence check for key %s before the insert in %s" % (fmt(key), fn.name)
 
 
+    def absence_guarded_sym(self, g, is_site, key_of, depth=0):
+        """path-sensitive form of `absence_guarded`, helpers inlined (sym.py): on every path of g that reaches an insert
+        site, the inserted key was observed physically absent by a presence predicate, or removed by key, earlier on the
+        same path with no other store insert in between; a path that shows neither defers to every caller of g."""
+        from sym import ipaths, focus
+        F = self.F
+        stops = (set(self.presence_fns) | set(self.remove_fns) | set(self.insert_fns)) - {g.name}
+        paths = ipaths(F, g, stop=focus(F, stops), depth=3)
+        open_keys = []
+        n_sites = 0
+        for p in paths:
+            for e in p.events:
+                if not is_site(e):
+                    continue
+                n_sites += 1
+                key = key_of(e)
+                anchors = [a[4] for a in p.atoms if a[0] == "bool" and a[1][0] == "call" and a[1][1] in self.presence_fns and a[2] is False
+                           and a[4] < e.seq and same_value(a[1][2][self.presence_fns[a[1][1]] - 1], key)]
+                for x in p.events:
+                    if x.seq < e.seq and ((x.callee in self.remove_fns and any(same_value(a, key) for a in x.args[1:])) or
+                                          (dashmap_call(x.t) == ("remove", "S") and same_value(x.args[1], key))):
+                        anchors.append(x.seq)
+                if anchors:
+                    a0 = max(anchors)
+                    between = [x for x in p.events if a0 < x.seq < e.seq and (x.callee in self.insert_fns or dashmap_call(x.t) == ("insert", "S"))]
+                    if between:
+                        return False, "another store insert lies between the absence check and the insert in %s" % g.name
+                    continue
+                if not any(strip_site(key) == strip_site(k) for k in open_keys):
+                    open_keys.append(key)
+        if n_sites == 0:
+            return False, "insert site not found on the paths of %s" % g.name
+        if not open_keys:
+            return True, "absence of the key established in %s" % g.name
+        for key in open_keys:
+            only_params = not mentions(key, lambda s: s[0] in ("var", "unknown", "env", "upvar", "built", "phi") or (s[0] == "call" and s[1] != "clone"))
+            if not only_params or depth >= 6:
+                return False, "no same-thread absence check for key %s before the insert in %s" % (fmt(key), g.name)
+            cs = self.callers(g.name)
+            if not cs:
+                return False, "reached %s without a same-thread absence check for the inserted key" % g.name
+            for h in {c[0].name: c[0] for c in cs}.values():
+                ok, why = self.absence_guarded_sym(h, lambda e, gn=g.name: e.callee == gn, lambda e, k=key: subst_params(k, list(e.args)), depth + 1)
+                if not ok:
+                    return False, why
+        return True, "absence established in every caller of %s" % g.name
+
+
 def local_uses(fn, l):
     """(bb, where) of reads of local l other than its drop / storage markers"""
     uses = []
